@@ -15,6 +15,7 @@ type Chooser struct {
 	replaying bool
 	pos       int
 	Rec       []int
+	Log       func(v int) // optional: called for every value drawn (crash forensics)
 }
 
 func NewChooser(seed uint64) *Chooser {
@@ -44,6 +45,9 @@ func (c *Chooser) Intn(n int) int {
 	}
 	c.pos++
 	c.Rec = append(c.Rec, v)
+	if c.Log != nil {
+		c.Log(v)
+	}
 	return v
 }
 
